@@ -108,6 +108,7 @@ bool prop_C10exit(Tape& t, Report& rep)
     // exactly what engine/main.cpp does after the table initialisation
     std::thread mainThread([&] {
         {
+            scrub::scrub_stack();
             auto uci = std::make_unique<Uci>();
             uci->loop();
         }
